@@ -68,5 +68,17 @@ CHECKS = {
           "x86. The sufficiency of these orders (the Dekker argument) and the non-x86 branch of tick() are not decided.",
   "note": "Trusted: C++ memory model reasoning about seq_cst fences; host preprocessor branch (#if __x86_64__) only.",
   "technique": "static analysis: memory-order, fence post-dominance, edge-guard and provenance rules over CFG facts"},
+ "C14": {
+  "text": "Decides the shape of the versioned Treiber stack and the deposit-box take: whole-word (value,version) CAS on the free head; "
+          "every push attempt installs observed.version + positive constant and links to the observed head value, recomputed after each "
+          "failed CAS, with release/acquire orders; pop returns a recycled id only on the CAS-success edge, installs the popped node's "
+          "link, marks ids ACTIVE before returning, mints fresh ids by one fetch_add(1), acquires every head observation; enumeration "
+          "bounds are acquire loads of the counter; take_released returns the item only on the success edge of CAS(slot.version: "
+          "id.version -> different value), emplace stamps the slot with the allocated version before the id leaves; finish_released only "
+          "from holders of a successful take, Accessor moves keep one finisher; a thread id is allocated in the constructor and the same "
+          "value returned in the destructor. An ABA or stale-version match needs a precise three-thread interleaving and is silent. "
+          "Uniqueness over all interleavings is not decided.",
+  "note": "Trusted: clang 14 CFG; 64-bit lock-free atomics on VersionedValue (asserted by the platform, not by this check).",
+  "technique": "static analysis: provenance (desired value derives from observed value + constant), edge-guard, dominance and memory-order rules over CFG facts"},
 }
 NOT_APPLICABLE = {("C%02d" % i): PENDING for i in range(1, 21) if ("C%02d" % i) not in CHECKS}
